@@ -296,3 +296,106 @@ Theorem C11_emitted_tags_open_refuted :
   exists ds tg b l, defs_legal ds /\ tag_legal ds tg b /\ tags_of ds tg b l /\ l <> [] /\ emitted_tags ds tg b = ([], []).
 Proof. exact emitted_tags_open_refuted. Qed.
 Print Assumptions C11_emitted_tags_open_refuted.
+
+(* ================= wave 4: the status fold (seeded C11-6) and parameterized types (seeded C11-7) ================= *)
+From Coq Require Import Permutation.
+From A1 Require Fix.Status Fix.StatusProofs Fix.ParamSpec Fix.ParamSpecProofs Fix.ParamDistinct Fix.ParamDistinctProofs.
+
+(* ---- "fatal count turns into exit status": RET2RVAL folds to FATAL iff some component is fatal, whatever the order ---- *)
+Theorem C11_status_fold_fatal_iff : forall l : list Status.status,
+  Status.fold_status l = Status.SFatal <-> In Status.SFatal l.
+Proof. exact StatusProofs.fold_fatal_iff. Qed.
+Print Assumptions C11_status_fold_fatal_iff.
+
+Theorem C11_status_fold_warn_iff : forall l : list Status.status,
+  Status.fold_status l = Status.SWarn <-> In Status.SWarn l /\ ~ In Status.SFatal l.
+Proof. exact StatusProofs.fold_warn_iff. Qed.
+Print Assumptions C11_status_fold_warn_iff.
+
+Theorem C11_status_fold_order_irrelevant : forall l l' : list Status.status,
+  Permutation l l' -> Status.fold_status l = Status.fold_status l'.
+Proof. exact StatusProofs.fold_order_irrelevant. Qed.
+Print Assumptions C11_status_fold_order_irrelevant.
+
+(* the call tree of the fixer (passes, asn1f_recurse_expr, members): fatal iff some leaf check is fatal *)
+Theorem C11_status_tree_fatal_iff : forall t : Status.stree,
+  Status.eval Status.ret2rval t = Status.SFatal <-> In Status.SFatal (Status.leaves t).
+Proof. exact StatusProofs.eval_fatal_iff. Qed.
+Print Assumptions C11_status_tree_fatal_iff.
+
+(* asn1f_process + asn1c.c: the run stops with a non-zero status before any code is written iff some check of
+   some phase of some module was fatal, or warned and -Werror was given *)
+Theorem C11_status_run_refused_iff : forall (werror : bool) (mods : list (Status.stree * Status.stree)),
+  Status.run_exit Status.ret2rval werror mods <> 0 <->
+  In Status.SFatal (Status.all_leaves mods) \/ (werror = true /\ In Status.SWarn (Status.all_leaves mods)).
+Proof. exact StatusProofs.run_refused_iff. Qed.
+Print Assumptions C11_status_run_refused_iff.
+
+(* "the first recorded problem is sticky" (seeded C11-6): a fatal after a warning is lost, the run exits 0 *)
+Theorem C11_status_sticky_refuted :
+  exists mods, In Status.SFatal (Status.all_leaves mods) /\ Status.run_exit Status.ret2rval_sticky false mods = 0.
+Proof. exact StatusProofs.sticky_run_refuted. Qed.
+Print Assumptions C11_status_sticky_refuted.
+
+(* ... and only there: on runs that record no warning the two macros agree - the region the corpus never left *)
+Theorem C11_status_sticky_partial : forall l : list Status.status,
+  ~ In Status.SWarn l -> Status.fold_with Status.ret2rval_sticky l = Status.fold_status l.
+Proof. exact StatusProofs.sticky_partial. Qed.
+Print Assumptions C11_status_sticky_partial.
+
+Theorem C11_status_sticky_is_first : forall l : list Status.status,
+  Status.fold_with Status.ret2rval_sticky l = hd Status.SOk (filter StatusProofs.nonok l).
+Proof. exact StatusProofs.sticky_is_first. Qed.
+Print Assumptions C11_status_sticky_is_first.
+
+(* ---- parameterized types: the checks run on the clones; which clone a reference gets is decided by
+        asn1p_expr_compare (Fix/ParamSpec.v, C10).  On actual parameters without subtype constraints / nested
+        parameter lists / value sets ([plain], [good]) it identifies only equal trees ---- *)
+Theorem C11_param_compare_identifies_only_equal : forall a b : ParamSpec.pexpr,
+  ParamDistinct.plain a = true -> ParamDistinct.plain b = true -> ParamSpec.ecmp a b = ParamSpec.CEq -> a = b.
+Proof. exact ParamDistinctProofs.ecmp_identifies_only_equal. Qed.
+Print Assumptions C11_param_compare_identifies_only_equal.
+
+Theorem C11_param_prefix_compare_refuted :
+  exists a b, ParamDistinct.plain a = true /\ ParamDistinct.plain b = true /\ ParamDistinct.ecmp_prefix a b = ParamSpec.CEq /\ a <> b.
+Proof. exact ParamDistinctProofs.prefix_identifies_different_refuted. Qed.
+Print Assumptions C11_param_prefix_compare_refuted.
+
+(* every reference P {actuals} is checked with its own actual parameters *)
+Theorem C11_param_reference_checked_on_own_actuals : forall refs : list ParamSpec.pexpr,
+  ParamDistinctProofs.goods refs -> ParamDistinct.resolved refs = Some (map Some refs).
+Proof. exact ParamDistinctProofs.resolved_own. Qed.
+Print Assumptions C11_param_reference_checked_on_own_actuals.
+
+(* the clones  <Template>_<line>P<k>  are the different actual parameter lists, each once (tied to the names in the output) *)
+Theorem C11_param_clones_are_the_distinct_actuals : forall refs : list ParamSpec.pexpr,
+  ParamDistinctProofs.goods refs ->
+  exists tf ks, ParamDistinct.assign_tbl [] refs = Some (tf, ks) /\ NoDup tf /\ (forall x, In x tf <-> In x refs) /\
+                ParamDistinct.nclones refs = Some (length tf).
+Proof. exact ParamDistinctProofs.clones_are_the_distinct_actuals. Qed.
+Print Assumptions C11_param_clones_are_the_distinct_actuals.
+
+Theorem C11_param_indices_are_paramspec's : forall refs tbl,
+  option_map snd (ParamDistinct.assign_tbl tbl refs) = ParamSpec.assign tbl refs.
+Proof. exact ParamDistinctProofs.assign_tbl_indices. Qed.
+Print Assumptions C11_param_indices_are_paramspec's.
+
+(* whatever the per-instantiation check (tags, identifiers, enumerations of the body with the actual parameters
+   substituted): the fixer rejects iff the instantiation of SOME reference is faulty *)
+Theorem C11_param_rejects_iff_some_reference_faulty : forall (faulty : ParamSpec.pexpr -> bool) refs,
+  ParamDistinctProofs.goods refs ->
+  ParamDistinct.rejects_with ParamSpec.ecmp faulty refs = Some (ParamDistinct.must_reject faulty refs).
+Proof. exact ParamDistinctProofs.rejects_iff_some_reference_faulty. Qed.
+Print Assumptions C11_param_rejects_iff_some_reference_faulty.
+
+Theorem C11_param_prefix_rejects_refuted :
+  exists faulty refs, ParamDistinctProofs.goods refs /\ ParamDistinct.must_reject faulty refs = true /\
+                      ParamDistinct.rejects_with ParamDistinct.ecmp_prefix faulty refs = Some false.
+Proof. exact ParamDistinctProofs.prefix_rejects_refuted. Qed.
+Print Assumptions C11_param_prefix_rejects_refuted.
+
+Theorem C11_param_prefix_clone_count_refuted :
+  exists refs, ParamDistinctProofs.goods refs /\ ParamDistinct.nclones refs = Some 2%nat /\
+               ParamDistinct.nclones_with ParamDistinct.ecmp_prefix refs = Some 1%nat.
+Proof. exact ParamDistinctProofs.prefix_clone_count_refuted. Qed.
+Print Assumptions C11_param_prefix_clone_count_refuted.
